@@ -348,10 +348,16 @@ class Gen(object):
         if mode == 'args':
             # positional arguments up to the first referential attribute, then keywords
             npos = rng.randint(0, len(attrs))
+            through = rng.random() < 0.4    # positional values past a referential attribute: its own slot stays unset
             for name, ty in attrs[:npos]:
                 if name in refs:
-                    break
+                    if not through:
+                        break
+                    op['args'].append(None)
+                    continue
                 op['args'].append(draw_value(rng, ty, px))
+            while op['args'] and op['args'][-1] is None and attrs[len(op['args']) - 1][0] in refs:
+                op['args'].pop()
             npos = len(op['args'])
             rest = [(n, t) for n, t in attrs[npos:] if n not in refs]
             if rng.random() < 0.25 and npos:
@@ -1102,7 +1108,7 @@ def apply_ref(ref, op, gen_time=False, world=None):
             raise AssertionError('reference accepted an unknown type')
         refs = sch.referential(c['kind'])
         given = [sch.declared(c['kind'], sp) for sp, _ in op['kw']]
-        given += [n for (n, _), _v in zip(sch.attrs(c['kind']), op['args'])]
+        given += [n for (n, _), _v in zip(sch.attrs(c['kind']), op['args']) if not (n in refs and _v is None)]
         given_refs = [n for n in given if n in refs]
         if given_refs:
             # referential arguments: only where the statements define the outcome (see DESIGN.md C02/C03)
